@@ -289,6 +289,17 @@ pub fn run(tier: Tier) -> i32 {
         for k in (0..chars.len()).step_by(stepc) {
             cases.push(Case { kind: "char-prefix", origin: name.clone(), text: chars[..k].iter().collect::<String>().into_bytes() });
         }
+        // line ending variants: CR only and CRLF, whole and cut at every token boundary (locations
+        // must stay on lines that exist, rendering must not fail)
+        if tier == Tier::Thorough || ci % 5 == 0 {
+            for (kind, nl) in [("cr-only", "\r"), ("crlf", "\r\n"), ("cr-cr-lf", "\r\r\n")] {
+                cases.push(Case { kind, origin: name.clone(), text: text.replace('\n', nl).into_bytes() });
+                let stepk = if lx.len() > 120 { 5 } else { 1 };
+                for k in (0..lx.len()).step_by(stepk) {
+                    cases.push(Case { kind, origin: name.clone(), text: join(&lx[..k], "").replace('\n', nl).into_bytes() });
+                }
+            }
+        }
         let heavy = tier == Tier::Thorough || ci % 3 == 0;
         let mut idents: Vec<String> = lx.iter().map(|x| x.1.clone()).filter(|t| is_ident(t)).collect();
         idents.sort();
@@ -505,7 +516,7 @@ pub fn run(tier: Tier) -> i32 {
         coverage: json!({
             "evaluations": evaluated.load(Ordering::Relaxed),
             "distinct_nontrivial": distinct_errors.lock().unwrap().len() as u64 + outcomes.len() as u64,
-            "rule": "corpus = repository example programs, error examples, documentation code blocks, generated programs of families S/D/P and a hand-written program using every syntactic form; for each: every token-boundary prefix, every character prefix (every 7th for long files), every single-token deletion, duplication, adjacent swap, every identifier token replaced by every other identifier of the same program, and substitution by each token of an alphabet of keywords / punctuation incl. comment delimiters / identifiers / boundary numbers (big numbers are not placed in array-size, range or constant-expression positions, and `-` is not substituted inside a constant expression, where wrapping subtraction yields a legal but enormous array); all token strings of length <= L over a 37-token alphabet; every range pattern a{suffix}..b{suffix} / ..= over a 14-number boundary alphabet (0, 1, type minima/maxima and their neighbours) x suffix pairs x scrutinee types; all byte strings of length <= 2 over printable ASCII + NUL, 0x80, 0xff, multi-byte characters, CR/LF/TAB, alone and inside a program; the same perturbations of literal strings given to parse_arg; each case runs check + compile of every pub fn + prettify in an isolated worker with a deadline and an address-space limit; distinct_nontrivial = number of distinct (outcome class, perturbation kind) pairs observed",
+            "rule": "corpus = repository example programs, error examples, documentation code blocks, generated programs of families S/D/P and a hand-written program using every syntactic form; for each: every token-boundary prefix (also with CR-only, CRLF and CR CR LF line endings), every character prefix (every 7th for long files), every single-token deletion, duplication, adjacent swap, every identifier token replaced by every other identifier of the same program, and substitution by each token of an alphabet of keywords / punctuation incl. comment delimiters / identifiers / boundary numbers (big numbers are not placed in array-size, range or constant-expression positions, and `-` is not substituted inside a constant expression, where wrapping subtraction yields a legal but enormous array); all token strings of length <= L over a 37-token alphabet; every range pattern a{suffix}..b{suffix} / ..= over a 14-number boundary alphabet (0, 1, type minima/maxima and their neighbours) x suffix pairs x scrutinee types; all byte strings of length <= 2 over printable ASCII + NUL, 0x80, 0xff, multi-byte characters, CR/LF/TAB, alone and inside a program; the same perturbations of literal strings given to parse_arg; each case runs check + compile of every pub fn + prettify in an isolated worker with a deadline and an address-space limit; distinct_nontrivial = number of distinct (outcome class, perturbation kind) pairs observed",
             "samples": [
                 {"kind": cases[1].kind, "origin": cases[1].origin, "text": String::from_utf8_lossy(&cases[1].text)},
                 {"kind": cases[n_frontend / 2].kind, "origin": cases[n_frontend / 2].origin, "text": String::from_utf8_lossy(&cases[n_frontend / 2].text)},
